@@ -11,13 +11,14 @@ _U = TOK + ["src/http/one/RequestParser.cc", "src/http/one/ResponseParser.cc", "
            "src/SquidConfig.cc", "src/ip/Address.cc", "src/helper/ChildConfig.cc"]
 _B = "; b = fully symbolic byte (any of the 256 values); h = fully symbolic byte, case-split per hex digit (22 concrete paths + one symbolic class for the other 234 values)"
 _DQ = "; each stream delivered in one piece, split in two right before the first and right after the last symbolic byte (streams of at most 8 bytes: at every position), and byte by byte"
-_DT = "; each stream delivered in one piece, split in two at every position, and byte by byte; relaxed_header_parser in {-1,0,1}"
+_DT = "; each stream delivered in one piece, split in two at every position from two bytes before the first to four bytes after the last symbolic byte, and byte by byte; relaxed_header_parser in {0,1} ({-1,0,1} in c09_req_any, c09_req_line, the limit skeletons, c09_rep_any (reply streams) and the status-line skeletons of c09_rep_line)"
 _R2 = "; relaxed_header_parser in {0,1}"
 _R1 = "; relaxed_header_parser on (default)"
 _CL = "; client connection = re-stated ConnStateData/Http1::Server loop on an intercepting port (origin-form targets get their URL from the Host field)"
 _SV = "; server connection = re-stated HttpStateData loop, followed by the peer closing"
+_HEAVY = {"c09_rep_hdr": 2, "c09_req_fields": 3, "c09_rep_fields": 2, "c09_req_line": 2}   # thorough: engine workers for the largest entries (the others get 1 each)
 def _e(n, q, t, rq, rt=None, **kw):
-    return (dict(name=n, bounds=q, reach=list(rq), max_samples=4, sample_every=37, **kw), dict(name=n, bounds=t, reach=list(rt or rq), max_samples=4, sample_every=211, **kw))
+    return (dict(name=n, bounds=q, reach=list(rq), max_samples=4, sample_every=37, **kw), dict(name=n, bounds=t, reach=list(rt or rq), max_samples=4, sample_every=211, jobs=_HEAVY.get(n, 1), **kw))
 _GET = "'GET / HTTP/1.1 CRLF' + "
 _OK = "'HTTP/1.1 200 OK CRLF' + "
 _RQC = "'POST / HTTP/1.1 CRLF Transfer-Encoding: chunked CRLF CRLF' + "
@@ -25,7 +26,7 @@ _RPC = "'HTTP/1.1 200 OK CRLF Transfer-Encoding: chunked CRLF CRLF' + "
 _CH = "h '2 CRLF ab CRLF 0 CRLF CRLF' | '2' h 'CRLF ab CRLF 0 CRLF CRLF' | '1;' b b b 'CRLF X CRLF 0 CRLF CRLF' | '2 CRLF XY' b b '0 CRLF CRLF' | '1 CRLF X CRLF 0 CRLF' b b b"
 _FAM = [
     _e("c09_req_any", "every request stream of 0..3 bytes b (relaxed_header_parser in {0,1}) | 'GET ' b b b ' HTTP/1.1 CRLF CRLF' on a forward-proxy port (relaxed_header_parser on)" + _B + _CL + _DQ,
-       "every request stream of 0..5 bytes b | 'GET ' b b b b ' HTTP/1.1 CRLF CRLF' on a forward-proxy port" + _B + _CL + _DT,
+       "every request stream of 0..4 bytes b | 'GET ' b b b b ' HTTP/1.1 CRLF CRLF' on a forward-proxy port" + _B + _CL + _DT,
        ("request-refused", "request-incomplete", "uri-rejected")),
     _e("c09_req_line", "'GET' b b b 'HTTP/1.1 CRLF CRLF' | 'GET / HTTP/1.1' b b b | 'GET /' b 'HTTP/' b '.' b CRLF CRLF" + _B + _R2 + _CL + _DQ,
        "as quick, and b b 'GET / HTTP/1.0 CRLF' b LF | b b 'T / HTTP/1.1 CRLF H: v CRLF CRLF'" + _CL + _DT, ("request-accepted", "request-refused", "request-incomplete")),
@@ -37,24 +38,24 @@ _FAM = [
        ("request-accepted", "request-refused", "request-header-rejected", "pipelined", "body-done")),
     _e("c09_req_fields", "'POST / HTTP/1.1 CRLF Content-Length: 1' b 'CRLF Content-Length:' b '1 CRLF CRLF' | " + _GET + "'Range: bytes=' b '-' b 'CRLF CRLF' | " + _GET + "'Cache-Control: max-age=' b ',' b 'CRLF CRLF' | "
        "'OPTIONS * HTTP/1.1 CRLF Max-Forwards: ' b 'CRLF Connection:' b 'close CRLF CRLF' | 'POST / HTTP/1.' b 'CRLF Transfer-Encoding:' b 'chunked CRLF CRLF 0 CRLF CRLF'" + _B + _R1 + _CL + _DQ,
-       "as quick with one more symbolic byte in each skeleton (first Content-Length value, first range position, max-age value, Max-Forwards value, after 'chunked')" + _CL + _DT,
+       "as quick with one more symbolic byte in the first Content-Length value, the first range position and after 'chunked'" + _CL + _DT,
        ("request-accepted", "request-refused", "framing-rejected", "request-header-rejected", "body-done")),
     _e("c09_req_body", _RQC + _CH + " with body pipe space 1; request_header_max_size symbolic in [8,44] against 'GET /abcdefgh HTTP/1.1 CRLF Host: x CRLF' b LF (relaxed_header_parser in {0,1})" + _B + _R1 + _CL + _DQ,
        _RQC + _CH + " with body pipe space 1 or 3; request_header_max_size symbolic in [8,44] against 'GET /abcdefgh HTTP/1.1' b LF 'Host: x CRLF' b LF" + _B + _CL + _DT,
        ("request-accepted", "request-refused", "request-incomplete", "body-done", "body-bad")),
     _e("c09_rep_any", "every reply stream of 0..5 bytes b (relaxed_header_parser in {0,1}) | " + _RPC + "every chunked body stream of 1 byte h (relaxed_header_parser on)" + _B + _SV + _DQ,
-       "every reply stream of 0..7 bytes b | " + _RPC + "every chunked body stream of 1..2 bytes h" + _B + _SV + _DT, ("reply-accepted", "reply-refused", "truncated", "body-bad")),
+       "every reply stream of 0..6 bytes b | " + _RPC + "every chunked body stream of 1..2 bytes h" + _B + _SV + _DT, ("reply-accepted", "reply-refused", "truncated", "body-bad")),
     _e("c09_rep_line", "'HTTP/1.1 ' b b b ' OK CRLF CRLF' | 'HTTP/1.' b b '200' b 'OK' b LF CRLF | 'HTTP/1.0 404 ' b b b LF CRLF | b 'TTP' b '1' b '1 200 OK CRLF CRLF' | 'ICY' b '40' b b CRLF CRLF (relaxed_header_parser in {0,1}); "
        "1xx: 'HTTP/1.1 1' b b ' C CRLF CRLF HTTP/1.1 200 OK CRLF CRLF' | 'HTTP/1.1 100 Continue CRLF' b LF 'HTTP/1.' b ' 200 OK CRLF CRLF' (relaxed_header_parser on); "
        "reply_header_max_size symbolic in [8,44] against 'HTTP/1.1 200 OK CRLF Server: abcdefg CRLF' b LF (relaxed_header_parser in {0,1})" + _B + _SV + _DQ,
        "as quick; the limit skeleton is 'HTTP/1.1 200 OK' b LF 'Server: abcdefg CRLF' b LF" + _SV + _DT, ("reply-accepted", "reply-refused", "1xx", "truncated", "reply-header-rejected")),
     _e("c09_rep_hdr", _OK + "'Host' b ':v CRLF X: y CRLF CRLF' | 'A:' b b 'X: y CRLF CRLF' | 'A: b CRLF' b b 'CRLF X: y CRLF CRLF'; 'HTTP/1.1 200 OK' b LF 'A: b' b b CRLF b LF; dates: " + _OK +
        "'Date: Sun, 06 Nov 1994 08:49:' b b ' GMT CRLF CRLF' | 'Expires: ' b b 'CRLF CRLF' | 'Last-Modified: Sunday, 06-Nov-94 08:' b b ':37 GMT CRLF CRLF'" + _B + _R1 + _SV + _DQ,
-       "as quick; the date skeletons are " + _OK + "'Date: Sun, 06 Nov 1994 08:49:' b b ' GMT CRLF Expires: ' b b 'CRLF CRLF' | 'Date: ' b b b 'CRLF CRLF' | 'Last-Modified: Sunday, 06-Nov-94 08:' b b ':37 GMT CRLF Keep-Alive:' b 'CRLF CRLF'" + _SV + _DT,
+       "as quick with 'Expires: ' b b b 'CRLF CRLF'" + _SV + _DT,
        ("reply-accepted", "reply-refused", "reply-header-rejected", "truncated")),
     _e("c09_rep_fields", _OK + "'Content-Length: 1' b 'CRLF Content-Length:' b '1 CRLF CRLF ab' | 'Cache-Control: max-age=' b ',' b 'CRLF CRLF' | 'Surrogate-Control: max-age=' b ';' b 'CRLF CRLF' | "
        "'Connection:' b 'close CRLF Content-Type: a/b' b 'CRLF CRLF'; 'HTTP/1.1 206 Partial Content CRLF Content-Range: bytes ' b '-1/' b 'CRLF CRLF'" + _B + _R1 + _SV + _DQ,
-       "as quick with one more symbolic byte in each skeleton (first Content-Length value, max-age values, last-byte position, Content-Type)" + _SV + _DT, ("reply-accepted", "reply-header-rejected")),
+       "as quick with one more symbolic byte in the first Content-Length value, the last-byte position and the Content-Type" + _SV + _DT, ("reply-accepted", "reply-header-rejected")),
     _e("c09_rep_chunked", _RPC + _CH + " | '1;a=\"' b b b '\" CRLF X CRLF 0 CRLF CRLF' | '1 CRLF X CRLF' h 'CRLF CRLF' | b 'fffffffffffffff' b 'CRLF X'; "
        "'HTTP/1.1 200 OK CRLF Transfer-Encoding:' b 'chunked' b 'CRLF CRLF 0 CRLF CRLF'" + _B + _R1 + _SV + _DQ, "as quick" + _SV + _DT,
        ("reply-accepted", "body-done", "body-bad", "reply-header-rejected", "truncated")),
@@ -64,13 +65,15 @@ SPEC = dict(
     # xstrdup comes from the allocation layer (engine model / libc); rfc1123.cc without PIC so that its month-name table is a plain pointer array
     unit_flags={"compat/xstring.cc": ["-Dxstrdup=vf_unused_squid_xstrdup"], "src/time/rfc1123.cc": ["-fno-pic"]},
     native_units=["src/sbuf/Algorithms.cc"],
+    ub=True, ub_files=["http/one/", "parser/Tokenizer.cc", "mime_header.cc", "HttpHeader.cc", "HttpHeaderTools.cc", "anyp/Uri.cc", "ContentLengthInterpreter.cc", "HttpHdr", "rfc1123.cc",
+                       "StrList.cc", "http/Message.cc", "HttpReply.cc", "HttpRequest.cc", "StatusLine.cc"],
     scope="kernel",
     scope_note="kernel decided: the byte-facing layer -- Http1::RequestParser, Http1::ResponseParser, Http1::TeChunkedParser, AnyP::Uri::parse, HttpHeader::parse and the field "
                "parsers run by HttpRequest::parseHeader()/HttpReply::parseHeader() (Content-Length, Cache-Control, Range, Content-Range, Surrogate-Control, dates, Connection), on really "
                "constructed HttpRequest/HttpReply objects and driven through the re-stated control loops of ConnStateData::parseRequests/parseHttpRequest, Http1::Server::buildHttpRequest, "
                "clientProcessRequest (framing part), ConnStateData::handleChunkedRequestBody and HttpStateData::processReply/processReplyHeader/decodeAndWriteReplyBody -- performs no "
                "out-of-bounds, use-after-free or double-free access, reaches no assert()/Must()/fatal()/abort()/exit() other than a Must() that the real caller catches as a parse error, lets no "
-               "exception escape and terminates, for every value of the symbolic bytes of the listed streams under the listed deliveries, and ends every such stream in one of the states "
+               "exception escape, performs no signed-overflow/shift/division undefined behaviour in the parser sources (ub_files) and terminates, for every value of the symbolic bytes of the listed streams under the listed deliveries, and ends every such stream in one of the states "
                "'message accepted', 'error reply/close', 'waiting for more bytes'; gap: the glue after parsing (error page generation, ConnStateData::abortRequestParsing, connection close, "
                "store/forwarding/adaptation, 'other transactions continue to be served'), Http::Message::parse()/sanityCheckStartLine() (used for stored and ICAP-encapsulated messages, not for "
                "HTTP/1 peers), identity-encoded bodies (copied uninterpreted), streams longer or shaped differently than the families, TLS, effects that only the real allocator/ASan can show",
